@@ -12,7 +12,7 @@ NullTags   == {"null"}
 BoolTags   == {"true", "false"}
 IntTags    == {"i0", "i1", "im1", "i2", "i3", "ibig"}  \* 0 1 -1 2 3 2^63+1
 FloatTags  == {"f1_0", "f1_5", "f2_0"}                 \* 1.0 1.5 2.0
-MethodTags == {"m_ok", "m_one", "m_perr", "m_exc", "m_unk"}  \* method names (m_unk is never registered)
+MethodTags == {"m_ok", "m_one", "m_perr", "m_exc", "m_unk", "m_int"}  \* method names (m_unk is never registered; m_int: a view method whose view cannot be built)
 StrTags    == {"s_empty", "s_a", "s_b", "s_1", "s_v20", "s_v10", "s_esc", "mw_short", "mw_rewritten"}
                 \cup MethodTags
               \* ""  "a"  "b"  "1"  "2.0"  "1.0"  escapes+control+astral
